@@ -320,7 +320,7 @@ func (d *ledgerDriver) call(e BEvent, args map[string]interface{}) error {
 		if rinfr > ctx.BlockHeight() {
 			rinfr = ctx.BlockHeight()
 		}
-		args["o"], args["id"], args["infr"], args["power"], args["factor"] = o, id, rinfr, power, NB(f)
+		args["o"], args["id"], args["infr"], args["power"], args["factor"] = o, id, rinfr, N64(power), NB(f)
 		return k.OperatorKeeper.Slash(ctx, &operatortypes.SlashInputInfo{IsDogFood: true, Power: power, SlashType: 1, Operator: w.Op(o), AVSAddr: w.AvsAddr, SlashID: id, SlashEventHeight: rinfr, SlashProportion: factor})
 	case "NstUpdate":
 		s, a := e.str("s"), e.str("a")
